@@ -1,16 +1,36 @@
+// Runner for C24: path-segment verification on the real code —
+// seg.PathSegment.AddASEntry / SegmentFromPB (+Validate) / segverifier.VerifySegment
+// with a real trust.Verifier (with and without Verifier.Cache) over the real
+// trust.FetchingProvider and an in-memory SQLite trust DB filled by
+// harness/internal/pki24 (real ECDSA keys, X.509 chains, signed TRCs).
+//
+// A case is a short sequence of verifications on ONE verifier (so that the
+// chain cache is exercised): each step carries the segment as VerifySegment sees
+// it (Info.Raw, Info.Timestamp, per entry Local / ExpTime / HeaderAndBody /
+// Signature), the table of (key, digest, signature) triples among the step's
+// candidates that crypto/ecdsa accepts, and VerifySegment's verdict.
 package main
 
 import (
+	"bytes"
 	"context"
 	"crypto/ecdsa"
 	"crypto/elliptic"
-	"crypto/rand"
+	"crypto/sha256"
+	"crypto/sha512"
+	"encoding/hex"
 	"fmt"
+	"sort"
+	"strings"
 	"time"
 
 	"github.com/patrickmn/go-cache"
+	"google.golang.org/protobuf/proto"
 
 	"github.com/scionproto/scion/pkg/addr"
+	cppb "github.com/scionproto/scion/pkg/proto/control_plane"
+	cryptopb "github.com/scionproto/scion/pkg/proto/crypto"
+	"github.com/scionproto/scion/pkg/scrypto"
 	"github.com/scionproto/scion/pkg/scrypto/cppki"
 	"github.com/scionproto/scion/pkg/scrypto/signed"
 	seg "github.com/scionproto/scion/pkg/segment"
@@ -18,59 +38,760 @@ import (
 	"github.com/scionproto/scion/private/trust"
 	"github.com/scionproto/scion/private/trust/compat"
 	"verifharness/internal/pki24"
+	"verifharness/internal/vgen"
 )
 
+// ---------------------------------------------------------------- PKI description
+
+type certRec struct {
+	ia     addr.IA
+	key    *ecdsa.PrivateKey
+	keyID  int
+	skid   []byte
+	nb, na time.Time
+	ok     bool // chain verifies against the TRC and is valid now
+	label  string
+	as     *pki24.ASCert
+}
+
+type asRec struct {
+	ia    addr.IA
+	certs map[string]*certRec
+}
+
+func detKey(r *vgen.Rand, c elliptic.Curve) *ecdsa.PrivateKey {
+	n := (c.Params().BitSize + 7) / 8
+	for {
+		d := r.Bytes(n)
+		d[0] = 0
+		d[n-1] |= 1
+		if k, err := ecdsa.ParseRawPrivateKey(c, d); err == nil {
+			return k
+		}
+	}
+}
+
+func ms(t time.Time) string { return fmt.Sprintf("(%d)%%Z", t.UnixMilli()) }
+
+// hx prints a byte string as the compact literal of Lib/HexLit.v.
+func hx(b []byte) string {
+	if len(b) == 0 {
+		return "[]"
+	}
+	return fmt.Sprintf("(Hx %d 0x%s)", len(b), hex.EncodeToString(b))
+}
+
+// ---------------------------------------------------------------- per-case byte-string names
+
+type names struct {
+	lets  []string
+	byVal map[string]string
+	vals  map[string][]byte
+	order []string
+}
+
+func newNames() *names { return &names{byVal: map[string]string{}, vals: map[string][]byte{}} }
+
+// ref returns a Gallina expression for b, introducing a let-bound name for long strings.
+func (n *names) ref(b []byte) string {
+	if len(b) < 6 {
+		return hx(b)
+	}
+	if nm, ok := n.byVal[string(b)]; ok {
+		return nm
+	}
+	// one byte away from a named string of the same length?
+	for _, nm := range n.order {
+		o := n.vals[nm]
+		if len(o) != len(b) {
+			continue
+		}
+		diff, pos := 0, 0
+		for i := range b {
+			if b[i] != o[i] {
+				diff++
+				pos = i
+				if diff > 1 {
+					break
+				}
+			}
+		}
+		if diff == 1 {
+			return fmt.Sprintf("(setb %s %d %d)", nm, pos, b[pos])
+		}
+	}
+	nm := fmt.Sprintf("x%d", len(n.order))
+	n.order = append(n.order, nm)
+	n.byVal[string(b)] = nm
+	n.vals[nm] = append([]byte{}, b...)
+	n.lets = append(n.lets, fmt.Sprintf("let %s := %s in", nm, hx(b)))
+	return nm
+}
+
+// ---------------------------------------------------------------- segments
+
+type entrySpec struct {
+	as     *asRec
+	cert   *certRec // key and subject key id used for signing
+	kIA    addr.IA  // key id fields (default: as.ia, cert.skid, TRC 1/1)
+	kSKID  []byte
+	kBase  uint64
+	kSer   uint64
+	exp    uint8
+	abnorm string
+}
+
+type world struct {
+	ctx   context.Context
+	now   time.Time
+	ases  []*asRec
+	certs []*certRec
+	db    trust.DB
+	rng   *vgen.Rand
+}
+
+func (w *world) signer(e *entrySpec) trust.Signer {
+	algo, err := signed.SelectSignatureAlgorithm(e.cert.key.Public())
+	if err != nil {
+		panic(err)
+	}
+	return trust.Signer{PrivateKey: e.cert.key, Algorithm: algo, IA: e.kIA, SubjectKeyID: e.kSKID,
+		Expiration: w.now.Add(time.Hour),
+		TRCID:      cppki.TRCID{ISD: e.kIA.ISD(), Base: scrypto.Version(e.kBase), Serial: scrypto.Version(e.kSer)}}
+}
+
+// build signs a segment entry by entry with the real AddASEntry and passes it
+// through the protobuf representation and SegmentFromPB (parse + Validate).
+func (w *world) build(r *vgen.Rand, ts time.Time, specs []*entrySpec) (*seg.PathSegment, error) {
+	ps, err := seg.CreateSegment(ts, uint16(r.Intn(65536)))
+	if err != nil {
+		return nil, err
+	}
+	prevEgress := uint16(0)
+	for i, sp := range specs {
+		e := seg.ASEntry{Local: sp.as.ia, MTU: 1200 + r.Intn(300)}
+		hf := seg.HopField{ExpTime: sp.exp, ConsIngress: prevEgress}
+		copy(hf.MAC[:], r.Bytes(6))
+		if i < len(specs)-1 {
+			e.Next = specs[i+1].as.ia
+			hf.ConsEgress = uint16(r.Range(1, 60000))
+		}
+		prevEgress = uint16(r.Range(1, 60000))
+		if i == 0 {
+			hf.ConsIngress = 0
+		}
+		e.HopEntry = seg.HopEntry{HopField: hf, IngressMTU: 1300}
+		for p := r.Intn(3); p > 0 && i > 0; p-- {
+			ph := seg.HopField{ExpTime: uint8(r.Intn(256)), ConsIngress: uint16(r.Range(1, 999)),
+				ConsEgress: hf.ConsEgress}
+			copy(ph.MAC[:], r.Bytes(6))
+			e.PeerEntries = append(e.PeerEntries, seg.PeerEntry{HopField: ph, Peer: w.ases[r.Intn(len(w.ases))].ia,
+				PeerInterface: uint16(r.Range(1, 999)), PeerMTU: 1400})
+		}
+		if err := ps.AddASEntry(w.ctx, e, w.signer(sp)); err != nil {
+			return nil, err
+		}
+	}
+	return seg.SegmentFromPB(seg.PathSegmentToPB(ps))
+}
+
+func clonePB(pb *cppb.PathSegment) *cppb.PathSegment { return proto.Clone(pb).(*cppb.PathSegment) }
+
+func digest(hid int, raw []byte) []byte {
+	switch hid {
+	case 1:
+		s := sha256.Sum256(raw)
+		return s[:]
+	case 2:
+		s := sha512.Sum384(raw)
+		return s[:]
+	default:
+		s := sha512.Sum512(raw)
+		return s[:]
+	}
+}
+
+// ---------------------------------------------------------------- steps
+
+type step struct {
+	ps     *seg.PathSegment
+	fromPB bool
+	what   string
+}
+
+// stepTerm runs the real verification and prints the step.
+func (w *world) stepTerm(n *names, v compat.Verifier, st step) (term string, verdict bool, accepted int, reached bool) {
+	ps := st.ps
+	err := segverifier.VerifySegment(w.ctx, v, nil, ps)
+	verdict = err == nil
+	infoE := n.ref(ps.Info.Raw)
+	var ents, tbl []string
+	var earlierE []string
+	earlier := append([]byte{}, ps.Info.Raw...)
+	for _, e := range ps.ASEntries {
+		var hb, sg []byte
+		if e.Signed != nil {
+			hb, sg = e.Signed.HeaderAndBody, e.Signed.Signature
+		}
+		hbE, sgE := n.ref(hb), n.ref(sg)
+		ents = append(ents, fmt.Sprintf("SegVerify.mkentry %d %d %s %s", uint64(e.Local), e.HopEntry.HopField.ExpTime,
+			hbE, sgE))
+		// candidate keys: certificates whose (IA, subject key id) are the ones named in the key id
+		if hdr, herr := signed.ExtractUnverifiedHeader(&cryptopb.SignedMessage{HeaderAndBody: hb}); herr == nil {
+			var kid cppb.VerificationKeyID
+			if proto.Unmarshal(hdr.VerificationKeyID, &kid) == nil {
+				reached = true
+				raw := append(append([]byte{}, hb...), earlier...)
+				rawE := fmt.Sprintf("(%s ++ %s%s)", hbE, infoE, strings.Join(earlierE, ""))
+				seen := map[int]bool{}
+				for _, c := range w.certs {
+					if uint64(c.ia) != kid.IsdAs || !bytes.Equal(c.skid, kid.SubjectKeyId) || seen[c.keyID] {
+						continue
+					}
+					seen[c.keyID] = true
+					for hid := 1; hid <= 3; hid++ {
+						if ecdsa.VerifyASN1(&c.key.PublicKey, digest(hid, raw), sg) {
+							accepted++
+							tbl = append(tbl, fmt.Sprintf("(%d, (%d :: %s), %s)", c.keyID, hid, rawE, sgE))
+						}
+					}
+				}
+			}
+		}
+		earlier = append(append(earlier, hb...), sg...)
+		earlierE = append(earlierE, " ++ "+hbE+" ++ "+sgE)
+	}
+	term = fmt.Sprintf("SegVerify.mkstep (SegVerify.mkseg %s (%d)%%Z [%s]) %s [%s] %s", infoE, ps.Info.Timestamp.Unix(),
+		strings.Join(ents, "; "), vgen.B(st.fromPB), strings.Join(tbl, "; "), vgen.B(verdict))
+	return
+}
+
+func shortKey(parts ...any) string {
+	s := sha256.Sum256([]byte(fmt.Sprint(parts...)))
+	return hex.EncodeToString(s[:10])
+}
+
 func main() {
+	run := vgen.Flags("C24")
+	run.Imports = []string{"Lib.HexLit", "Model.Signed", "Model.SegVerify"}
+	run.CheckFn = "SegVerify.check"
+	run.DiagFn = "SegVerify.diag"
+	run.CaseType = "SegVerify.case"
+	run.ShardSize = 60
+	run.Rule = "segments of 1..8 AS entries signed entry by entry with the real AddASEntry + trust.Signer under a generated " +
+		"PKI (2 ISDs, 10 ASes; per AS a main certificate and narrow / renewed / expired / future / rogue-CA / " +
+		"same-key-other-AS / same-skid-other-key certificates), passed through protobuf + SegmentFromPB; per case a " +
+		"sequence of 1-4 verifications on one verifier (cache on in half of the cases): the base segment, abnormal " +
+		"signers (uncertified key, foreign ISD-AS, certificate not covering [ts, ts+lifetime] incl. exact boundaries, " +
+		"wrong / empty subject key id, TRC base / serial), wire mutations (segment info bytes and fields, " +
+		"header-and-body bytes, signature bytes, swapped signatures), structural mutations (entry removed / inserted / " +
+		"swapped / duplicated, trailing entries dropped, struct fields Local / ExpTime / Timestamp changed) and " +
+		"cache-priming sequences (same signer, different validity); non-trivial = a verification reached the " +
+		"certificate lookup of some entry"
+	rng := vgen.NewRand(run.Seed)
 	ctx := context.Background()
-	now := time.Now()
-	ia := addr.MustParseIA("1-ff00:0:110")
-	isd, err := pki24.NewISD(1, ia, now.Add(-100*24*time.Hour), now.Add(100*24*time.Hour), 1)
+	now := time.Now().Truncate(time.Second)
+	w := &world{ctx: ctx, now: now, rng: rng}
+
+	// ------------------------------------------------------------ the PKI
+	day := 24 * time.Hour
+	isd1, err := pki24.NewISD(1, addr.MustParseIA("1-ff00:0:110"), now.Add(-100*day), now.Add(100*day), 1)
 	if err != nil {
 		panic(err)
 	}
-	k, _ := ecdsa.GenerateKey(elliptic.P256(), rand.Reader)
-	skid, _ := cppki.SubjectKeyID(k.Public())
-	// certificate valid from 10 days ago until 1 hour from now
-	c, err := isd.IssueAS(ia, k, skid, now.Add(-10*24*time.Hour), now.Add(time.Hour), nil, nil)
+	isd2, err := pki24.NewISD(2, addr.MustParseIA("2-ff00:0:210"), now.Add(-100*day), now.Add(100*day), 1)
 	if err != nil {
 		panic(err)
 	}
-	d, err := pki24.NewDB()
-	if err != nil {
-		panic(err)
+	isdOf := map[addr.ISD]*pki24.ISD{1: isd1, 2: isd2}
+	kr := rng.Fork(3)
+	keyCount := 0
+	newKey := func(i int) (*ecdsa.PrivateKey, int) {
+		keyCount++
+		c := elliptic.P256()
+		if i%5 == 3 {
+			c = elliptic.P384()
+		} else if i%7 == 6 {
+			c = elliptic.P521()
+		}
+		return detKey(kr, c), keyCount
 	}
-	if err := pki24.Load(ctx, d, []*pki24.ISD{isd}, []*pki24.ASCert{c}); err != nil {
-		panic(err)
-	}
-	algo, _ := signed.SelectSignatureAlgorithm(k.Public())
-	signer := trust.Signer{PrivateKey: k, Algorithm: algo, IA: ia, SubjectKeyID: skid,
-		Expiration: now.Add(time.Hour), TRCID: isd.TRC.TRC.ID}
-	mk := func(ts time.Time, exp uint8) *seg.PathSegment {
-		ps, err := seg.CreateSegment(ts, 7)
+	issue := func(a *asRec, label string, key *ecdsa.PrivateKey, keyID int, skid []byte, nb, na time.Time, rogue bool) *certRec {
+		isd := isdOf[a.ia.ISD()]
+		var caKey *ecdsa.PrivateKey
+		var caCert = isd.CA
+		if rogue {
+			ck, cc, err := isd.RogueCA(now.Add(-100*day), now.Add(100*day))
+			if err != nil {
+				panic(err)
+			}
+			caKey, caCert = ck, cc
+		} else {
+			caKey = isd.CAKey
+		}
+		ac, err := isd.IssueAS(a.ia, key, skid, nb, na, caKey, caCert)
 		if err != nil {
-			panic(err)
+			panic(fmt.Sprint("issuing ", label, " for ", a.ia, ": ", err))
 		}
-		e := seg.ASEntry{Local: ia, MTU: 1400, HopEntry: seg.HopEntry{HopField: seg.HopField{ExpTime: exp}}}
-		if err := ps.AddASEntry(ctx, e, signer); err != nil {
-			panic(err)
-		}
-		ps2, err := seg.SegmentFromPB(seg.PathSegmentToPB(ps))
-		if err != nil {
-			panic(err)
-		}
-		return ps2
+		okNow := !rogue && !now.Before(nb) && !now.After(na)
+		c := &certRec{ia: a.ia, key: key, keyID: keyID, skid: skid, nb: nb, na: na, ok: okNow, label: label, as: ac}
+		a.certs[label] = c
+		w.certs = append(w.certs, c)
+		return c
 	}
-	good := mk(now.Add(-time.Hour), 10)        // lifetime inside the certificate
-	long := mk(now.Add(-time.Minute), 255)     // 24 h lifetime: outlives the certificate
-	for _, withCache := range []bool{false, true} {
-		tv := trust.Verifier{Engine: pki24.Provider(d)}
-		if withCache {
+	ias := []string{"1-ff00:0:110", "1-ff00:0:111", "1-ff00:0:112", "1-ff00:0:113", "1-ff00:0:114", "1-ff00:0:115",
+		"2-ff00:0:210", "2-ff00:0:211", "2-ff00:0:212", "2-ff00:0:213"}
+	for i, s := range ias {
+		a := &asRec{ia: addr.MustParseIA(s), certs: map[string]*certRec{}}
+		w.ases = append(w.ases, a)
+		k, id := newKey(i)
+		skid, _ := cppki.SubjectKeyID(k.Public())
+		issue(a, "main", k, id, skid, now.Add(-30*day), now.Add(30*day), false)
+		if i%3 == 0 {
+			k2, id2 := newKey(i + 1)
+			skid2, _ := cppki.SubjectKeyID(k2.Public())
+			issue(a, "narrow", k2, id2, skid2, now.Add(-3*time.Hour), now.Add(3*time.Hour), false)
+		}
+		if i%3 == 1 {
+			// renewed: same key and subject key id, another window (two chains for one query)
+			issue(a, "renewed", k, id, skid, now.Add(-2*time.Hour), now.Add(40*day), false)
+		}
+		if i%4 == 1 {
+			k3, id3 := newKey(i + 2)
+			skid3, _ := cppki.SubjectKeyID(k3.Public())
+			issue(a, "expired", k3, id3, skid3, now.Add(-20*day), now.Add(-10*day), false)
+		}
+		if i%4 == 2 {
+			k3, id3 := newKey(i + 2)
+			skid3, _ := cppki.SubjectKeyID(k3.Public())
+			issue(a, "future", k3, id3, skid3, now.Add(2*day), now.Add(9*day), false)
+		}
+		if i%5 == 0 {
+			k4, id4 := newKey(i + 3)
+			skid4, _ := cppki.SubjectKeyID(k4.Public())
+			issue(a, "rogue", k4, id4, skid4, now.Add(-30*day), now.Add(30*day), true)
+		}
+		if i%5 == 2 {
+			// another key under the SAME subject key id as the main certificate
+			k5, id5 := newKey(i + 4)
+			issue(a, "twin", k5, id5, skid, now.Add(-30*day), now.Add(30*day), false)
+		}
+	}
+	// the main key of AS 1 is also certified (same subject key id) for AS 2
+	{
+		x := w.ases[1].certs["main"]
+		issue(w.ases[2], "cross", x.key, x.keyID, x.skid, now.Add(-30*day), now.Add(30*day), false)
+	}
+	db, err := pki24.NewDB()
+	if err != nil {
+		panic(err)
+	}
+	var chains []*pki24.ASCert
+	for _, c := range w.certs {
+		chains = append(chains, c.as)
+	}
+	if err := pki24.Load(ctx, db, []*pki24.ISD{isd1, isd2}, chains); err != nil {
+		panic(err)
+	}
+	w.db = db
+	engine := pki24.Provider(db)
+
+	var certT []string
+	for _, c := range w.certs {
+		certT = append(certT, fmt.Sprintf("SegVerify.mkcert %d %s %s %s %d %s", uint64(c.ia), hx(c.skid), ms(c.nb), ms(c.na),
+			c.keyID, vgen.B(c.ok)))
+	}
+	run.Prelude = "Definition pki0 : list SegVerify.cert := [\n " + strings.Join(certT, ";\n ") + "].\n" +
+		"Definition trcs0 : list SegVerify.trc := [SegVerify.mktrc 1 1 1; SegVerify.mktrc 2 1 1].\n"
+
+	// ------------------------------------------------------------ generators
+	normal := func(a *asRec, exp uint8) *entrySpec {
+		c := a.certs["main"]
+		return &entrySpec{as: a, cert: c, kIA: a.ia, kSKID: c.skid, kBase: 1, kSer: 1, exp: exp}
+	}
+	pathOf := func(r *vgen.Rand, n int) []*asRec {
+		idx := make([]int, len(w.ases))
+		for i := range idx {
+			idx[i] = i
+		}
+		vgen.Shuffle(r, idx)
+		out := make([]*asRec, n)
+		for i := 0; i < n; i++ {
+			out[i] = w.ases[idx[i%len(idx)]]
+		}
+		return out
+	}
+	genExp := func(r *vgen.Rand) uint8 {
+		return vgen.Pick(r, uint8(0), 1, 10, 63, 127, 254, 255, uint8(r.Intn(256)), uint8(r.Intn(256)))
+	}
+	genTS := func(r *vgen.Rand) time.Time {
+		return now.Add(-time.Duration(r.Range(60, 6*3600)) * time.Second)
+	}
+	withCert := func(sp *entrySpec, label string) bool {
+		c, ok := sp.as.certs[label]
+		if !ok {
+			return false
+		}
+		sp.cert, sp.kSKID, sp.abnorm = c, c.skid, label
+		return true
+	}
+	asWith := func(label string) *asRec {
+		for _, a := range w.ases {
+			if _, ok := a.certs[label]; ok {
+				return a
+			}
+		}
+		panic("no AS with " + label)
+	}
+	_ = asWith
+
+	abnormalKinds := []string{"wrongkey", "otherIA", "narrow", "renewed", "expired", "future", "rogue", "twin", "cross",
+		"wrongskid", "emptyskid", "trcbase", "trcserial-ok", "trcserial-high", "foreign-isd-keyid"}
+	// makeAbnormal changes the signer of entry k; returns false if the class does not apply to that AS
+	makeAbnormal := func(r *vgen.Rand, specs []*entrySpec, k int, kind string) bool {
+		sp := specs[k]
+		switch kind {
+		case "wrongkey":
+			fresh := detKey(r, elliptic.P256())
+			sp.cert = &certRec{ia: sp.as.ia, key: fresh, keyID: 900 + k, skid: sp.cert.skid}
+		case "otherIA":
+			other := w.ases[(indexOf(w.ases, sp.as)+1)%len(w.ases)]
+			oc := other.certs["main"]
+			sp.cert, sp.kIA, sp.kSKID = oc, other.ia, oc.skid
+		case "narrow", "renewed", "expired", "future", "rogue", "twin", "cross":
+			if !withCert(sp, kind) {
+				return false
+			}
+		case "wrongskid":
+			sp.kSKID = append([]byte{}, sp.kSKID...)
+			sp.kSKID[r.Intn(len(sp.kSKID))] ^= 1
+		case "emptyskid":
+			sp.kSKID = nil
+		case "trcbase":
+			sp.kBase = vgen.Pick(r, uint64(0), 2)
+			sp.kSer = sp.kBase
+		case "trcserial-ok":
+			sp.kSer = 0
+			sp.kBase = 1
+		case "trcserial-high":
+			sp.kSer = uint64(r.Range(2, 4))
+		case "foreign-isd-keyid":
+			// key id names the same AS number in the other ISD
+			isd := addr.ISD(3 - int(sp.as.ia.ISD()))
+			sp.kIA = addr.MustIAFrom(isd, sp.as.ia.AS())
+		}
+		sp.abnorm = kind
+		return true
+	}
+
+	newVerifier := func(cached bool) compat.Verifier {
+		tv := trust.Verifier{Engine: engine}
+		if cached {
 			tv.Cache = cache.New(time.Minute, time.Minute)
 		}
-		v := compat.Verifier{Verifier: tv}
-		fmt.Println("cache", withCache)
-		fmt.Println("  long first:", segverifier.VerifySegment(ctx, v, nil, long) == nil)
-		fmt.Println("  good:", segverifier.VerifySegment(ctx, v, nil, good) == nil)
-		fmt.Println("  long after good:", segverifier.VerifySegment(ctx, v, nil, long) == nil)
+		return compat.Verifier{Verifier: tv}
 	}
+
+	emit := func(kind, class string, cached bool, steps []step, key string, extra map[string]any) {
+		n := newNames()
+		v := newVerifier(cached)
+		var terms []string
+		var verdicts []bool
+		var whats []string
+		reachedAny := false
+		acc := 0
+		for _, st := range steps {
+			t, vd, a, reached := w.stepTerm(n, v, st)
+			terms = append(terms, t)
+			verdicts = append(verdicts, vd)
+			whats = append(whats, st.what)
+			reachedAny = reachedAny || reached
+			acc += a
+		}
+		term := "(" + strings.Join(n.lets, " ") + " SegVerify.CSeq pki0 trcs0 " + vgen.B(cached) + " [" +
+			strings.Join(terms, "; ") + "])"
+		desc := map[string]any{"class": class, "cache": cached, "steps": whats, "impl": verdicts,
+			"crypto_accepts": acc}
+		for k, v := range extra {
+			desc[k] = v
+		}
+		run.Tally("class:" + class)
+		for i, vd := range verdicts {
+			run.Tally(fmt.Sprintf("step:%s:%v", strings.SplitN(whats[i], " ", 2)[0], vd))
+		}
+		run.Add(kind, term, key, reachedAny, desc)
+	}
+
+	describe := func(specs []*entrySpec) string {
+		var s []string
+		for _, sp := range specs {
+			d := fmt.Sprintf("%s/exp%d", sp.as.ia, sp.exp)
+			if sp.abnorm != "" {
+				d += "/" + sp.abnorm
+			}
+			s = append(s, d)
+		}
+		return strings.Join(s, " ")
+	}
+
+	// other returns a second, independent valid segment (source of foreign entries)
+	other := func(r *vgen.Rand) *seg.PathSegment {
+		p := pathOf(r, r.Range(2, 4))
+		var specs []*entrySpec
+		for _, a := range p {
+			specs = append(specs, normal(a, genExp(r)))
+		}
+		ps, err := w.build(r, genTS(r), specs)
+		if err != nil {
+			panic(err)
+		}
+		return ps
+	}
+
+	ncases := run.Count(200, 6000)
+	for ci := 0; ci < ncases; ci++ {
+		r := rng.Fork(uint64(1000 + ci))
+		cached := r.Bool()
+		n := vgen.Pick(r, 1, 2, 2, 3, 3, 4, 5, 6, 8)
+		path := pathOf(r, n)
+		var specs []*entrySpec
+		for _, a := range path {
+			specs = append(specs, normal(a, genExp(r)))
+		}
+		ts := genTS(r)
+		group := vgen.Pick(r, "valid", "abnormal", "abnormal", "wire", "wire", "struct", "struct", "boundary", "cache")
+		if !run.Want() {
+			run.Skip()
+			continue
+		}
+		extra := map[string]any{}
+		var steps []step
+		class := group
+		mustBuild := func(ts time.Time, specs []*entrySpec) *seg.PathSegment {
+			ps, err := w.build(r, ts, specs)
+			if err != nil {
+				panic(fmt.Sprint("building segment: ", err))
+			}
+			return ps
+		}
+		switch group {
+		case "valid":
+			ps := mustBuild(ts, specs)
+			steps = append(steps, step{ps, true, "base"})
+			// every prefix verifies as well
+			k := r.Range(1, n)
+			cp := ps.ShallowCopy()
+			cp.ASEntries = cp.ASEntries[:k]
+			steps = append(steps, step{cp, false, fmt.Sprintf("prefix %d", k)})
+			if r.Bool() {
+				steps = append(steps, step{ps, true, "base again"})
+			}
+		case "abnormal":
+			k := r.Intn(n)
+			kind := vgen.Pick(r, abnormalKinds...)
+			if !makeAbnormal(r, specs, k, kind) {
+				// class not available for this AS: use one that always is
+				kind = vgen.Pick(r, "wrongkey", "otherIA", "wrongskid", "trcserial-high")
+				makeAbnormal(r, specs, k, kind)
+			}
+			class = "abnormal:" + kind
+			if kind == "narrow" || kind == "renewed" {
+				// the window is +-3h / from -2h: vary the timestamp and lifetime around it
+				ts = now.Add(-time.Duration(vgen.Pick(r, 600, 3600, 2*3600+1800, 4*3600, 5*3600)) * time.Second)
+				specs[k].exp = vgen.Pick(r, uint8(0), 5, 20, 40, 255)
+			}
+			ps := mustBuild(ts, specs)
+			steps = append(steps, step{ps, true, "abnormal " + kind})
+			if k > 0 && r.Bool() {
+				cp := ps.ShallowCopy()
+				cp.ASEntries = cp.ASEntries[:k]
+				steps = append(steps, step{cp, false, "prefix before-abnormal"})
+			}
+		case "boundary":
+			// narrow certificate [now-3h, now+3h]: lifetime ending exactly at / just after NotAfter,
+			// timestamp exactly at / just before NotBefore
+			var a *asRec
+			for _, x := range w.ases {
+				if _, ok := x.certs["narrow"]; ok && r.Chance(1, 2) {
+					a = x
+				}
+			}
+			if a == nil {
+				a = w.ases[0]
+			}
+			sp := normal(a, 0)
+			withCert(sp, "narrow")
+			c := a.certs["narrow"]
+			which := vgen.Pick(r, "na-exact", "na-plus", "na-minus", "nb-exact", "nb-before", "nb-after")
+			switch which {
+			case "na-exact", "na-plus", "na-minus":
+				// (exp+1) even => whole seconds: lifetime = (exp+1)*337.5 s
+				sp.exp = uint8(2*r.Range(1, 12) - 1)
+				life := time.Duration(int(sp.exp)+1) * 337500 * time.Millisecond
+				ts = c.na.Add(-life)
+				if which == "na-plus" {
+					ts = ts.Add(time.Second)
+				} else if which == "na-minus" {
+					ts = ts.Add(-time.Second)
+				}
+			case "nb-exact":
+				ts, sp.exp = c.nb, uint8(r.Intn(8))
+			case "nb-before":
+				ts, sp.exp = c.nb.Add(-time.Second), uint8(r.Intn(8))
+			case "nb-after":
+				ts, sp.exp = c.nb.Add(time.Second), uint8(r.Intn(8))
+			}
+			class = "boundary:" + which
+			k := r.Intn(n)
+			specs[k] = sp
+			ps := mustBuild(ts, specs)
+			steps = append(steps, step{ps, true, "boundary " + which})
+		case "cache":
+			// same signer, different validity requirements, on one verifier
+			a := w.ases[vgen.Pick(r, 0, 3, 6, 9)] // ASes with a narrow certificate
+			good := normal(a, uint8(r.Intn(6)))
+			withCert(good, "narrow")
+			long := normal(a, 255)
+			withCert(long, "narrow")
+			old := normal(a, 3)
+			withCert(old, "narrow")
+			k := r.Intn(n)
+			mk := func(sp *entrySpec, ts time.Time) *seg.PathSegment {
+				s2 := append([]*entrySpec{}, specs...)
+				s2[k] = sp
+				return mustBuild(ts, s2)
+			}
+			gs := mk(good, now.Add(-time.Duration(r.Range(60, 3000))*time.Second))
+			ls := mk(long, now.Add(-time.Duration(r.Range(60, 3000))*time.Second))
+			os := mk(old, now.Add(-4*time.Hour))
+			order := vgen.Pick(r, "good-long", "long-good-long", "good-old", "old-good-old", "good-long-old")
+			class = "cache:" + order
+			for _, o := range strings.Split(order, "-") {
+				switch o {
+				case "good":
+					steps = append(steps, step{gs, true, "good validity-covered"})
+				case "long":
+					steps = append(steps, step{ls, true, "long lifetime-outlives-certificate"})
+				case "old":
+					steps = append(steps, step{os, true, "old timestamp-before-certificate"})
+				}
+			}
+		case "wire":
+			ps := mustBuild(ts, specs)
+			if r.Chance(1, 3) {
+				steps = append(steps, step{ps, true, "base"})
+			}
+			for tries := 0; tries < 3; tries++ {
+				pb := clonePB(seg.PathSegmentToPB(ps))
+				k := r.Intn(n)
+				m := vgen.Pick(r, "info-byte", "info-ts", "info-segid", "info-unknown-field", "hb-byte", "hb-byte",
+					"sig-byte", "sig-byte", "sig-swap", "hb-swap", "sig-truncate")
+				switch m {
+				case "info-byte":
+					p := r.Intn(len(pb.SegmentInfo))
+					pb.SegmentInfo[p] ^= byte(1 << r.Intn(8))
+				case "info-ts", "info-segid":
+					var inf cppb.SegmentInformation
+					_ = proto.Unmarshal(pb.SegmentInfo, &inf)
+					if m == "info-ts" {
+						inf.Timestamp += int64(vgen.Pick(r, 1, -1, 60, -3600))
+					} else {
+						inf.SegmentId ^= uint32(1 << r.Intn(16))
+					}
+					pb.SegmentInfo, _ = proto.Marshal(&inf)
+				case "info-unknown-field":
+					pb.SegmentInfo = append(pb.SegmentInfo, 0x48, byte(r.Intn(128)))
+				case "hb-byte":
+					hb := pb.AsEntries[k].Signed.HeaderAndBody
+					hb[r.Intn(len(hb))] ^= byte(1 << r.Intn(8))
+				case "sig-byte":
+					sg := pb.AsEntries[k].Signed.Signature
+					sg[r.Intn(len(sg))] ^= byte(1 << r.Intn(8))
+				case "sig-truncate":
+					sg := pb.AsEntries[k].Signed.Signature
+					pb.AsEntries[k].Signed.Signature = sg[:len(sg)-1]
+				case "sig-swap":
+					l := r.Intn(n)
+					pb.AsEntries[k].Signed.Signature, pb.AsEntries[l].Signed.Signature =
+						pb.AsEntries[l].Signed.Signature, pb.AsEntries[k].Signed.Signature
+				case "hb-swap":
+					l := r.Intn(n)
+					pb.AsEntries[k].Signed.HeaderAndBody, pb.AsEntries[l].Signed.HeaderAndBody =
+						pb.AsEntries[l].Signed.HeaderAndBody, pb.AsEntries[k].Signed.HeaderAndBody
+				}
+				mp, err := seg.SegmentFromPB(pb)
+				if err != nil {
+					run.Tally("wire-parse-rejected:" + m)
+					continue
+				}
+				steps = append(steps, step{mp, true, fmt.Sprintf("wire %s entry %d", m, k)})
+			}
+			if len(steps) == 0 {
+				steps = append(steps, step{ps, true, "base"})
+			}
+		case "struct":
+			ps := mustBuild(ts, specs)
+			if r.Chance(1, 3) {
+				steps = append(steps, step{ps, true, "base"})
+			}
+			for tries := 0; tries < 3; tries++ {
+				cp := ps.ShallowCopy()
+				k := r.Intn(n)
+				m := vgen.Pick(r, "remove", "remove", "insert", "insert", "swap", "dup", "truncate", "lie-local",
+					"lie-exp", "lie-ts", "move-last-first", "empty")
+				es := append([]seg.ASEntry{}, cp.ASEntries...)
+				consistent := true
+				switch m {
+				case "remove":
+					es = append(es[:k:k], es[k+1:]...)
+				case "insert":
+					o := other(r)
+					es = append(es[:k:k], append([]seg.ASEntry{o.ASEntries[r.Intn(len(o.ASEntries))]}, es[k:]...)...)
+				case "swap":
+					if n > 1 {
+						l := (k + 1) % n
+						es[k], es[l] = es[l], es[k]
+					}
+				case "dup":
+					es = append(es[:k+1:k+1], es[k:]...)
+				case "truncate":
+					es = es[:r.Range(0, n)]
+				case "move-last-first":
+					es = append([]seg.ASEntry{es[len(es)-1]}, es[:len(es)-1]...)
+				case "empty":
+					es = nil
+				case "lie-local":
+					es[k].Local = w.ases[r.Intn(len(w.ases))].ia
+					if r.Chance(1, 4) {
+						es[k].Local = 0
+					}
+					consistent = false
+				case "lie-exp":
+					es[k].HopEntry.HopField.ExpTime = genExp(r)
+					consistent = false
+				case "lie-ts":
+					cp.Info.Timestamp = cp.Info.Timestamp.Add(time.Duration(vgen.Pick(r, -7200, 7200, 1)) * time.Second)
+					consistent = false
+				}
+				_ = consistent
+				cp.ASEntries = es
+				steps = append(steps, step{cp, false, fmt.Sprintf("struct %s at %d", m, k)})
+			}
+		}
+		extra["segment"] = describe(specs)
+		extra["ts_minus_now_s"] = int(ts.Sub(now).Seconds())
+		emit("seq", class, cached, steps, shortKey(ci, class, describe(specs), cached, len(steps)), extra)
+	}
+	// deterministic order of distribution keys is handled by vgen
+	_ = sort.Strings
+	run.Finish()
+}
+
+func indexOf(as []*asRec, a *asRec) int {
+	for i, x := range as {
+		if x == a {
+			return i
+		}
+	}
+	return 0
 }
